@@ -45,10 +45,29 @@ Definition ws_method (w : write_site) := let 'W m _ _ := w in m.
 Definition ws_kind (w : write_site) := let 'W _ k _ := w in k.
 Definition ws_count (w : write_site) := let 'W _ _ c := w in c.
 Definition same_site (a b : write_site) : bool := String.eqb (ws_method a) (ws_method b) && String.eqb (ws_kind a) (ws_kind b).
+(* kinds that can only ADD to / read through the state: append, elem-write, and method calls on the field whose name is not
+   reset-like. They may vanish, decrease, or MOVE between methods of the struct (compared by per-kind totals). *)
+Definition reset_like_method (k : string) : bool :=
+  existsb (fun m => has_suffix (":" ++ m) k) ["Clear"; "Reset"; "Init"; "Truncate"; "Parse"; "Delete"].
 Definition additive (w : write_site) : bool :=
-  mem (ws_kind w) ["append"; "elem-write"; "ptr-method:Insert"].
-Definition sites_within (ws rs : list write_site) : bool :=
+  mem (ws_kind w) ["append"; "elem-write"]
+  || ((has_prefix "ptr-method:" (ws_kind w) || has_prefix "via-pointer:" (ws_kind w)) && negb (reset_like_method (ws_kind w))).
+Definition kind_total (k : string) (ws : list write_site) : N :=
+  fold_left (fun acc w => if String.eqb (ws_kind w) k then (acc + ws_count w)%N else acc) ws 0%N.
+(* the rule of round 5 (per method for every kind), kept for comparison *)
+Definition sites_within_per_method (ws rs : list write_site) : bool :=
   forallb (fun w => existsb (fun r => same_site w r && (ws_count w <=? ws_count r)%N) rs) ws
+  && forallb (fun r => mem (ws_kind r) ["append"; "elem-write"; "ptr-method:Insert"]
+                       || existsb (fun w => same_site w r && N.eqb (ws_count w) (ws_count r)) ws) rs.
+(* - an observed ADDITIVE site: the total of its kind over all methods of the struct is at most the reviewed total (the same amount
+     of state-adding code, wherever it now sits; a new kind or a higher total needs review);
+   - any other observed site (assign, reset-make, reset-truncate, incdec, sub-field write, address taken, Clear/Reset/...-like method
+     calls: the resets and overwrite-before-read points the justifications rely on, whose POSITION matters) must be a reviewed site
+     of the same method with at most its count;
+   - every reviewed non-additive site must still be there with exactly its count as long as the field is written at all. *)
+Definition sites_within (ws rs : list write_site) : bool :=
+  forallb (fun w => if additive w then (kind_total (ws_kind w) ws <=? kind_total (ws_kind w) rs)%N
+                    else existsb (fun r => same_site w r && (ws_count w <=? ws_count r)%N) rs) ws
   && forallb (fun r => additive r || existsb (fun w => same_site w r && N.eqb (ws_count w) (ws_count r)) ws) rs.
 
 (* every written field of the struct is in the table and its observed sites are within the reviewed ones *)
